@@ -23,7 +23,7 @@ pub fn check() -> Check {
         .assume("crash points are exactly the calls of verif_hooks::crash_point in RocksDBWithMerkleTreeSubstateStore::commit (cargo feature verif-hooks); a stop is simulated by unwinding out of commit and dropping the handle, and for 1 case in 8 by _exit() in a child process (no destructors run, recovery from the WAL only)")
         .assume("unreachable tree nodes left behind by an interrupted pruning pass are not observable through the store's API and are not counted as an inconsistency")
         .min_nontrivial_pct(20.0)
-        .part(Part::new("crash points", 400, 20_000, 900, imp::case))
+        .part(Part::new("crash points", 600, 24_000, 900, imp::case))
 }
 
 /// Entry of the helper child process: `vf-store __c19_child <dir> <crash index> <pruning 0|1>`.
